@@ -607,7 +607,16 @@ def _digest_env_source(tree, fn_name):
     kw = {k.arg: ast.unparse(k.value) for k in calls[0].keywords}
     if kw.get("env_overrides") != "env_overrides" or kw.get("shell") != "shell":
         raise TranslatorError(f"{fn_name}: shell / env_overrides ingredients of the digest not recognised: {kw}")
+    # the label ingredient: 1 = the label of the step, 2 = Run.description (its display form with escapes)
+    label_src = ast.unparse(calls[0].args[0])
+    if label_src not in LABEL_SOURCE_CODES:
+        raise TranslatorError(f"{fn_name}: unknown label ingredient of the digest: {label_src}")
+    _digest_env_source.label[fn_name] = LABEL_SOURCE_CODES[label_src]
     return ENV_SOURCE_CODES[src]
+
+
+LABEL_SOURCE_CODES = {"run.step.label": 1, "step.label": 1, "run.description": 2}
+_digest_env_source.label = {}
 
 
 def _base_env_facts(tree):
@@ -796,6 +805,8 @@ def generate(check=True):
         "   check: Executor._compute_inp_step_hash (skip check, validate check, STEPUP_STEP_INP_DIGEST);",
         "   stored: Executor._compute_full_step_hash (the hash stored after a run);",
         "   command: what Executor._run_command hands to the child before overrides and reserved names *)",
+        f"Definition gen_digest_label_source_check : N := {_digest_env_source.label['_compute_inp_step_hash']}.",
+        f"Definition gen_digest_label_source_stored : N := {_digest_env_source.label['_compute_full_step_hash']}.",
         f"Definition gen_digest_env_source_check : N := {inp_env_src}.",
         f"Definition gen_digest_env_source_stored : N := {full_env_src}.",
         f"Definition gen_command_env_source : N := {cmd_env_src}.",
